@@ -72,6 +72,86 @@ def replay_trace(stage, n_items, n_workers, trace, fault_key=None):
     return res
 
 
+def reoffer_replay(stage_name, n_items, n_workers, n_main_steps):
+    """Directed schedule on the real entry point and workers: the producer runs alone until its bounded queue is full
+    and one more put() times out (queue.Full), then everybody runs to completion.  -> observation + missing items."""
+    stage = [s for s in STAGES if s.name == stage_name][0]
+    serial = []
+    stage.run_serial(n_items, lambda k: serial.append(k))
+    calls = []
+
+    def entry(S):
+        def on_item(k):
+            S.op("cb_start")
+            S.op("cb_end")
+            calls.append(k)
+        stage.run_entry(n_items, n_workers, on_item)
+
+    res = mpmodel.replay(entry, ["main"] * n_main_steps, snapshot=lambda: list(calls))
+    res["calls"] = calls
+    res["missing"] = [k for k in serial if k not in res.get("at_return", calls)]
+    return res
+
+
+def check_reoffer(run, stage, n_workers):
+    """A producer that gives put() a time-out must offer the same item again after queue.Full (extracted by running the
+    real entry point against a queue that raises Full once); a dropped item is confirmed with a directed schedule."""
+    name = "%s[W=%d].re-offers-after-full" % (stage.name, n_workers)
+    small = stage.item_counts["quick"][0]
+    base = mpmodel.extract_producer(lambda: stage.run_entry(small, n_workers, lambda k: None))
+    if not getattr(base, "put_timeouts", None):
+        run.ob(name, "confirmed", "E3:extraction", "put() is blocking (no time-out): there is no queue.Full path")
+        return
+    rec = mpmodel.Recorder()
+    rec.exitcode_value, rec.alive_value = 0, True
+    rec.full_at = {1}
+    rec.raised = None
+    fake = mpmodel.recording_mp(rec)
+    with mpmodel.patched_mp(fake):
+        try:
+            stage.run_entry(small, n_workers, lambda k: None)
+        except mpmodel.Stop:
+            pass
+        except Exception as e:
+            rec.raised = "%s: %s" % (type(e).__name__, e)
+    want = sorted(repr(stage.item_key(op[2])) for op in base.ops if op[0] == "put")
+    got = sorted(repr(stage.item_key(op[2])) for op in rec.ops if op[0] == "put")
+    if got == want and rec.raised is None:
+        run.ob(name, "confirmed", "E3:extraction", "after a queue.Full on its first put() the producer still enqueues exactly the %d items (the item is offered again)" % len(want))
+        return
+    maxsize = mpmodel.script_maxsize([op for op in base.ops])
+    sizes = sorted(set(stage.item_counts["quick"] + stage.item_counts["thorough"] + [7, 21, 85]))
+    n_items = None
+    for n in sizes:
+        if n > maxsize:
+            try:
+                producer_script(stage, n, n_workers)
+                n_items = n
+                break
+            except Exception:
+                continue
+    if n_items is None:
+        run.ob(name, "inconclusive", "E3:extraction", "after queue.Full the producer enqueues %s instead of %s, but the stage cannot be run with more than %d items to confirm it" % (got, want, maxsize))
+        return
+    n_main = n_workers + maxsize + 1
+    obs = reoffer_replay(stage.name, n_items, n_workers, n_main)
+    run.replays += 1
+    if obs.get("returned") and obs["missing"]:
+        text = ("# the producer alone until the bounded queue is full and one put() times out, then free run - on the real %s\nimport sys\nsys.path.insert(0, %r)\nimport props.C03 as P\n"
+                "obs = P.reoffer_replay(%r, %d, %d, %d)\nprint(obs.get('returned'), obs.get('raised'), 'missing', obs['missing'])\nsys.exit(1 if (obs.get('returned') and obs['missing']) else 0)\n"
+                ) % (stage.name, str(__import__("vlib.core").core.VERIF), stage.name, n_items, n_workers, n_main)
+        run.violation(name, "%s:item-dropped-after-put-timeout" % stage.name,
+                      "%s(parallel=%d) with %d items on a queue of %d: after a put() time-out (queue.Full) the producer does not offer the item again; the real entry point returns normally with %d item(s) never processed: %r" % (
+                          stage.name, n_workers, n_items, maxsize, len(obs["missing"]), obs["missing"][:3]), text, "E3:extraction+detsched")
+    else:
+        run.error(name, "extraction says an item is dropped after queue.Full (%s vs %s) but the directed schedule on the real code gives returned=%s raised=%s missing=%r" % (
+            got, want, obs.get("returned"), obs.get("raised"), obs.get("missing")))
+
+
+def job_reoffer(run, stage_name, n_workers):
+    check_reoffer(run, [s for s in STAGES if s.name == stage_name][0], n_workers)
+
+
 def job_stage(run, stage_name, n_items, n_workers):
     stage = [s for s in STAGES if s.name == stage_name][0]
     check_stage(run, stage, n_items, n_workers, run.tier)
@@ -162,4 +242,8 @@ def check(run):
     stages = [s for s in STAGES if not getattr(run, "only", None) or any(o in s.name for o in run.only)]
     from vlib.core import run_parallel
     jobs = [(st.name, n_items, w) for st in stages for n_items in st.item_counts[run.tier] for w in WORKERS[run.tier]]
-    run_parallel(run, __name__, "job_stage", jobs)
+    run_parallel(run, __name__, "job_any", [("stage",) + j for j in jobs] + [("reoffer", st.name, 2) for st in stages])
+
+
+def job_any(run, kind, *args):
+    (job_stage if kind == "stage" else job_reoffer)(run, *args)
